@@ -78,17 +78,24 @@ Qed.
 Lemma le_check_type f e t : le_res (check_type f e t) (check_type (S f) e t).
 Proof. unfold check_type. repeat first [apply le_constrain_type | mono_core]. Qed.
 
+Lemma le_coc_unsigned_deep f e t : le_res (coc_unsigned_deep f e t) (coc_unsigned_deep (S f) e t).
+Proof. unfold coc_unsigned_deep. repeat first [apply le_constrain_type | mono_core]. Qed.
+Lemma le_coc_signed_deep f e t : le_res (coc_signed_deep f e t) (coc_signed_deep (S f) e t).
+Proof. unfold coc_signed_deep. repeat first [apply le_constrain_type | mono_core]. Qed.
+Lemma le_unify f a b : le_res (unify f a b) (unify (S f) a b).
+Proof. unfold unify. repeat first [apply le_coc_unsigned_deep | apply le_coc_signed_deep | mono_core]. Qed.
+
 Lemma le_constrain_to_i32 : forall f b, le_res (constrain_to_i32 f b) (constrain_to_i32 (S f) b).
 Proof.
   induction f as [|f IH]; intros b; [apply le_nofuel|].
-  cbn [constrain_to_i32]. repeat first [apply IH | mono_core].
+  cbn [constrain_to_i32]. repeat first [apply IH | apply le_coc_signed_deep | mono_core].
 Qed.
 
-Lemma le_accs_loop ce ce' D : (forall st x, le_res (ce st x) (ce' st x)) ->
-  forall accs st t, le_res (accs_loop ce D st t accs) (accs_loop ce' D st t accs).
+Lemma le_accs_loop ce ce' f D : (forall st x, le_res (ce st x) (ce' st x)) ->
+  forall accs st t, le_res (accs_loop ce f D st t accs) (accs_loop ce' (S f) D st t accs).
 Proof.
   intros H. induction accs as [|a accs IH]; intros st t; cbn [accs_loop]; [apply le_refl|].
-  repeat first [apply H | apply IH | mono_core].
+  repeat first [apply H | apply IH | apply le_coc_unsigned_deep | mono_core].
 Qed.
 
 Lemma le_struct_lit_loop ce ce' f sd : (forall st x, le_res (ce st x) (ce' st x)) ->
@@ -121,7 +128,8 @@ Proof.
   { repeat split; intros; apply le_nofuel. }
   split; [|split; [|split; [|split]]].
   - intros st e. destruct e; cbn [Infer.check_expr]; refold_goal;
-      repeat first [ apply IHe | apply IHb | apply IHf | apply le_check_type
+      repeat first [ apply IHe | apply IHb | apply IHf | apply le_check_type | apply le_unify
+                   | apply le_coc_unsigned_deep | apply le_coc_signed_deep
                    | apply le_struct_lit_loop; intros | apply le_accs_loop; intros | mono_core ].
   - intros st b. cbn [Infer.check_stmts]. refold_goal. repeat first [apply IHs | mono_core].
   - intros st b. cbn [Infer.check_block]. refold_goal. repeat first [apply IHs | mono_core].
@@ -294,17 +302,17 @@ Ltac bound :=
 Ltac chk := first [eassumption | cbn [st_checking with_env]; eassumption | reflexivity].
 
 
-Lemma post_accs_loop ce c0 : forall accs,
-  (forall st x, In (XAArray x) accs -> st_checking st = c0 -> post (chk_is c0 (fun _ : texpr => True)) (ce st x)) ->
+Lemma post_accs_loop ce fu c0 : forall accs,
+  (forall st x, In (XAArray x) accs -> st_checking st = c0 -> post (chk_is c0 (fun te : texpr => td te <= fu)) (ce st x)) ->
   forall st t, st_checking st = c0 ->
-  post (fun r : list taccessor * cty * cstate => st_checking (snd r) = c0) (accs_loop ce D st t accs).
+  post (fun r : list taccessor * cty * cstate => st_checking (snd r) = c0) (accs_loop ce fu D st t accs).
 Proof.
   induction accs as [|a accs IH]; intros Hce st t Hst; cbn [accs_loop]; [exact Hst|].
   eapply (post_bind (fun r : taccessor * cty * cstate => st_checking (snd r) = c0)).
   - destruct a.
     + eapply post_bind; [apply post_nf; apply np_expect_array_type|]. intros el _.
-      eapply post_bind; [apply Hce; [left; reflexivity|exact Hst]|]. intros ri [Hri _].
-      eapply post_bind; [apply post_coc_u|]. intros i' _. exact Hri.
+      eapply post_bind; [apply Hce; [left; reflexivity|exact Hst]|]. intros ri [Hri Hti].
+      eapply post_bind; [apply (post_coc_u_deep fu fu); [exact Hti|lia]|]. intros i' _. exact Hri.
     + eapply post_bind; [apply post_nf; apply np_expect_tuple_type|]. intros vts _.
       destruct (nthN vts index); [exact Hst|exact I].
     + eapply post_bind; [apply post_nf; apply np_expect_struct_type|]. intros nm _.
@@ -348,15 +356,15 @@ Ltac sub_post IHe IHss IHb IHf c0 k f :=
   | |- post _ (zipM _ _ _) =>
       eapply (post_zipM _ (fun e => td e <= f));
         [intros ? ? ?; eapply (post_check_type f f); [assumption | lia] | assumption]
-  | |- post _ (accs_loop _ _ _ _ _) =>
-      eapply (post_accs_loop _ c0);
-        [intros ? ? ? ?; eapply post_weaken; [eapply (IHe c0 k); [eassumption | eassumption | bound]|];
-         intros ? [? ?]; split; [assumption|exact I]
-        | chk]
+  | |- post _ (accs_loop _ _ _ _ _ _) =>
+      eapply (post_accs_loop _ f c0);
+        [intros ? ? ? ?; eapply (IHe c0 k); [eassumption | eassumption | bound] | chk]
   | |- post _ (struct_lit_loop _ _ _ _ _ _) =>
       eapply (post_struct_lit_loop _ f c0);
         [intros ? ? ? ?; eapply (IHe c0 k); [eassumption | eassumption | bound] | chk]
-  | |- post _ (unify _ _) => apply post_unify
+  | |- post _ (unify _ _ _) => eapply (post_unify f f); [first [assumption | lia] | first [assumption | lia] | lia]
+  | |- post _ (coc_unsigned_deep _ _ _) => eapply (post_coc_u_deep f f); [first [assumption | lia] | lia]
+  | |- post _ (coc_signed_deep _ _ _) => eapply (post_coc_s_deep f f); [first [assumption | lia] | lia]
   | |- post _ (check_or_constrain_unsigned _ _) => apply post_coc_u
   | |- post _ (check_or_constrain_signed _ _) => apply post_coc_s
   | |- _ => nf_tac
@@ -410,8 +418,8 @@ Proof.
                do clauses' <- mapM (fun pc : tpattern * texpr =>
                     if negb (cty_eqb (pick_elem_ty (ty_of first) (map (fun pc0 : tpattern * texpr => ty_of (snd pc0)) (fst rc))) (ty_of (snd pc)))
                     then match pick_elem_ty (ty_of first) (map (fun pc0 : tpattern * texpr => ty_of (snd pc0)) (fst rc)) with
-                         | CUnsigned expected => do x <- check_or_constrain_unsigned (snd pc) expected; COk (fst pc, x)
-                         | CSigned expected => do x <- check_or_constrain_signed (snd pc) expected; COk (fst pc, x)
+                         | CUnsigned expected => do x <- coc_unsigned_deep f (snd pc) expected; COk (fst pc, x)
+                         | CSigned expected => do x <- coc_signed_deep f (snd pc) expected; COk (fst pc, x)
                          | _ => CErr E_UnexpectedType
                          end
                     else COk pc) (fst rc);
@@ -429,8 +437,8 @@ Proof.
         { eapply (post_mapM _ (fun pc : tpattern * texpr => td (snd pc) <= f)); [|exact Hrc2].
           intros pc Hpc. destruct (negb _); [|exact Hpc].
           destruct (pick_elem_ty _ _); try exact I.
-          - eapply post_bind; [apply post_coc_u|]. intros x Hx. cbn [post snd]. cbv beta in *. lia.
-          - eapply post_bind; [apply post_coc_s|]. intros x Hx. cbn [post snd]. cbv beta in *. lia. }
+          - eapply post_bind; [apply (post_coc_u_deep f f); [exact Hpc|lia]|]. intros x Hx. cbn [post snd]. cbv beta in *. lia.
+          - eapply post_bind; [apply (post_coc_s_deep f f); [exact Hpc|lia]|]. intros x Hx. cbn [post snd]. cbv beta in *. lia. }
         intros cl Hcl. eapply post_bind; [nf_tac|]. intros u _. cbn [post]. split; [chk|]. cbn [fst td].
         apply (proj2 (list_max_map_le (fun a : tpattern * texpr => td (snd a)) _ _)) in Hcl. lia. }
       destruct (ty_of (fst rs)); try exact I; apply Hmain.
